@@ -95,6 +95,13 @@ func (f *Family) URL(pos int, typ string, slot int, kind string) string {
 		return "http://" + host + path
 	case "HTTP":
 		return "HTTP://" + host + path
+	case "httpc":
+		// distribution points of one certificate that differ in nothing but the
+		// letter case of their path
+		if typ == "d" {
+			return "http://" + f.BaseRoute(pos, slot, "httpc")
+		}
+		return "http://" + host + path
 	case "httpq":
 		// distribution points of one certificate that differ in nothing but the
 		// query string
@@ -133,6 +140,12 @@ func (f *Family) DeltaURL(pos, slot, k int) string {
 
 // BaseRoute returns the network route of a CRL slot's base list.
 func (f *Family) BaseRoute(pos, slot int, kind string) string {
+	if kind == "httpc" {
+		// slot j: the j-th letter of "base" in upper case (slot 0: "Base.crl")
+		p := []byte("base")
+		p[slot%4] -= 32
+		return fmt.Sprintf("%s/%s.crl", f.Host(pos, "d", 0), p)
+	}
 	if kind == "httpq" {
 		return fmt.Sprintf("%s/base.crl?partition=%d", f.Host(pos, "d", 0), slot)
 	}
